@@ -246,7 +246,7 @@ theorem lowBudget_post (s0 s : St) (fsz out : Int) (b : SizeBudget) (hs : stOk s
 theorem decide'_pre (s1 : St) (fuzz : Bool) (o : NatOr) (fsz m isSil : Int) (hs : Settings s1)
     (hb : BwOk s1.bandwidth) (hm1 : 3 ≤ m) (hm2 : m ≤ 1276) :
     FramePre (decide' s1 fuzz o fsz m).st (singleIn (decide' s1 fuzz o fsz m) isSil fsz m) := by
-  obtain ⟨_, hmode, hbw, hw, _⟩ := decide'_spec s1 fuzz o fsz m hs hb
+  obtain ⟨_, hmode, hbw, hw, _, _⟩ := decide'_spec s1 fuzz o fsz m hs hb
   refine ⟨hm1, hm2, hmode, ?_⟩
   intro h
   have := hw h
@@ -262,7 +262,7 @@ theorem single_post (s0 s1 : St) (fuzz : Bool) (o : NatOr) (fsz out m isSil : In
       (singleRes (frameNative (decide' s1 fuzz o fsz m).st (singleIn (decide' s1 fuzz o fsz m) isSil fsz m) fo) okb) := by
   have hpre := decide'_pre s1 fuzz o fsz m isSil hs hb hm1 (by omega)
   have hpost := frameNative_post _ _ fo hpre hok
-  obtain ⟨hsame, _, _, _, _⟩ := decide'_spec s1 fuzz o fsz m hs hb
+  obtain ⟨hsame, _, _, _, _, _⟩ := decide'_spec s1 fuzz o fsz m hs hb
   have hvd : (decide' s1 fuzz o fsz m).st.useVbr = s0.useVbr := by rw [hsame.cfg.useVbr, hv]
   generalize frameNative (decide' s1 fuzz o fsz m).st (singleIn (decide' s1 fuzz o fsz m) isSil fsz m) fo = r at *
   have hmi : (singleIn (decide' s1 fuzz o fsz m) isSil fsz m).maxDataBytes = m := rfl
